@@ -298,16 +298,16 @@ def evaluate(ctx, case):
             return [model.Viol('sevenbit', -1, 'flex -7 refused a rule set that uses only 7-bit characters')], {}
         if not ba.ok or not bb.ok:
             return [], {}
-        x = common.run_one(ba.exe, case.plan.text(), timeout=120)
-        y = common.run_one(bb.exe, case.plan.text(), timeout=120)
+        x = common.run_one(ba.exe, case.plan.text(), timeout=ctx.run_timeout)
+        y = common.run_one(bb.exe, case.plan.text(), timeout=ctx.run_timeout)
         if sb.status_class(x) or sb.status_class(y) or obs(x) == obs(y):
             return [], {'main': x, 'twin': y}
         return [model.Viol('sevenbit', -1, 'the -7 and -8 scanners differ on 7-bit input')], {'main': x, 'twin': y}
     if not ba.ok or not bb.ok:
         return [], {}
     perm = {a: b for a, b in case.meta['perm']}
-    x = common.run_one(ba.exe, case.plan.text(), timeout=120)
-    y = common.run_one(bb.exe, relabel_plan(case.plan, perm).text(), timeout=120)
+    x = common.run_one(ba.exe, case.plan.text(), timeout=ctx.run_timeout)
+    y = common.run_one(bb.exe, relabel_plan(case.plan, perm).text(), timeout=ctx.run_timeout)
     return compare_twins(x, y, perm), {'main': x, 'twin': y}
 
 
